@@ -7,9 +7,13 @@ CONSTANTS
   RefLen3 = 4
   MiniLen = 7
   SelLen = 8
+  SimLevel = 2
+  LabelRefLen = 4
 INVARIANT InvKmers
 INVARIANT InvMask
 INVARIANT InvTable
+INVARIANT InvSimilar
+INVARIANT InvSelTab
 INVARIANT InvMini
 INVARIANT InvSelect
 CHECK_DEADLOCK FALSE
